@@ -12,6 +12,8 @@
 //        H<k>                 this_task_arena::isolate( task_group with a deferred task_handle, wait ): the handle is dropped k points later by a helper thread, which ends the wait
 //        P<n>:<k>:<part>      parallel_for over n one-index bodies of k work (part 0 simple, 1 auto, 2 static = mailed)
 //        G<u>,<u>..           task_group: run the units, wait (nested wait)
+//        K<n>:<u>             (leg --crit) flow graph with a prioritised function_node (critical tasks): try_put n messages under the current isolation scope,
+//                             then this_task_arena::isolate(unit u), then graph::wait_for_all: the pending critical tasks belong to the outer scope
 // Every X/E/G unit and every P index is a *body*; oracle in body_enter().  Rounds are separated by quiescent points (every other
 // thread blocked, workers asleep) where the observer balance is checked and the global_control set changes.
 #include "oneapi/tbb/task_group.h"
@@ -20,6 +22,7 @@
 #include "oneapi/tbb/global_control.h"
 #include "oneapi/tbb/partitioner.h"
 #include "oneapi/tbb/task_scheduler_observer.h"
+#include "oneapi/tbb/flow_graph.h"
 #include "../engine/drv/drv.h"
 
 const char* H_PROP = "C16";
@@ -42,6 +45,7 @@ static int gen_unit(GenSt& g, int arena, int depth) {
         else if (c == 0) o += " W" + std::to_string(g.s.range(1, 6));
         else if (c == 1) { static const int ns[] = { 2, 3, 5, 8 }; o += " P" + std::to_string(ns[g.s.choose(4)]) + ":" + std::to_string(g.s.range(1, 4)) + ":" + std::to_string((int)g.s.weighted({ 4, 1, 2 })); }
         else if (c == 2) { int n = 1 + (int)g.s.weighted({ 2, 3, 1 }); o += " G"; for (int i = 0; i < n && (i == 0 || g.budget > 0); i++) o += (i ? "," : "") + gen_sub(g, arena, depth + 1); }
+        else if (c == 3 && drv_flag("--crit") && g.s.coin(2)) o += " K" + std::to_string(g.s.range(1, 3)) + ":" + gen_sub(g, arena, depth + 1);   // only this leg draws the extra coin: the other legs' cases stay as they were
         else if (c == 3) o += " I" + gen_sub(g, arena, depth + 1);
         else if (c == 4) { int a = (arena + 1 >= na || g.s.coin(3)) ? arena : arena + 1 + (int)g.s.choose((uint32_t)(na - arena - 1));     // the own arena: execute() runs the functor in place, and the isolation of the caller must be back afterwards
             o += " X" + std::to_string(a) + ":" + gen_sub(g, a, depth + 1); }
@@ -130,7 +134,7 @@ static long next_tag = 1;
 struct TState { int arena = -1; std::vector<long> tags; std::vector<int> xarenas; /* arenas this thread is inside through its own execute() calls */ };
 static thread_local TState ts;
 static long n_bodies = 0, n_worker_bodies = 0, n_delegated = 0, n_extra_worker = 0, n_iso_wait_exec = 0, n_mid_limit = 0, n_slot_reuse = 0, n_nested_arena = 0, n_budget_tight = 0, n_excluded = 0, n_ext_nonreserved = 0;
-static int max_workers_seen = 0;
+static int max_workers_seen = 0; static long n_crit_bodies = 0;
 
 static int cur_L() { int l = L0; for (auto& kv : GCV) l = std::min(l, kv.second); return l; }
 static int nslots(const Arena& a) { return a.res == 0 ? a.mc : std::max(2, a.mc); }
@@ -294,6 +298,30 @@ static void run_ops(const std::vector<Op>& ops) {
             tbb::this_task_arena::isolate([&x, tag] { ts.tags.push_back(tag); run_ops(x.ops); ts.tags.pop_back(); });
             x.finished++;
             break; }
+        case 'K': {
+            // Critical tasks (the tasks of a prioritised flow-graph node) sit in the arena's critical stream and are looked for at every dispatch step; they carry
+            // the isolation of the thread that put the message, so a thread waiting in another isolation scope must leave them alone (arena::get_critical_task).
+            int u = op.b, n = op.a; Unit& x = U[(size_t)u]; if (x.submitted) vs_inconclusive("BAD-CASE", "unit %d submitted twice", u); x.submitted = true; x.started++;
+            int ai = ts.arena; long ptag = ts.tags.empty() ? 0 : ts.tags.back();
+            std::vector<int> ran((size_t)n, 0);
+            {
+                tbb::flow::graph fg;
+                tbb::flow::function_node<int, int> pn(fg, tbb::flow::unlimited, [ai, ptag, &ran](int id) {
+                    if (++ran[(size_t)id] > 1) vs_violation("RAN-TWICE", "priority node body ran twice for message %d", id);
+                    BodyScope s = body_enter(ai, ptag, false); n_crit_bodies++; vs_work(1); body_exit(s); return id; }, tbb::flow::node_priority_t(1));
+                for (int i = 0; i < n; i++) pn.try_put(i);
+                long tag = next_tag++;
+                tbb::this_task_arena::isolate([&x, tag] { ts.tags.push_back(tag); run_ops(x.ops); ts.tags.pop_back(); });
+                x.finished++;
+                // graph::wait_for_all waits through task_arena::execute on the graph's arena, and execute() drops the caller's isolation for its duration (as in op X):
+                // inside this wait the thread may take work of any scope.  (First version of this leg forgot that: ISOLATION alarms on the unchanged tree, oracle corrected.)
+                // The same holds for ~graph(), which waits once more (second correction, found by the seed sweep): the 0 frame stays until the graph is gone.
+                ts.tags.push_back(0);
+                fg.wait_for_all();
+                for (int i = 0; i < n; i++) if (ran[(size_t)i] != 1) vs_violation("WAIT-RETURNED-EARLY", "graph::wait_for_all returned but the priority node body ran %d times for message %d", ran[(size_t)i], i);
+            }
+            ts.tags.pop_back();
+            break; }
         case 'P': {
             int ai = ts.arena; long tag = ts.tags.empty() ? 0 : ts.tags.back(); int k = op.b; int me = vs_self();
             auto body = [ai, tag, k, me](const tbb::blocked_range<int>& r) { for (int i = r.begin(); i < r.end(); i++) { BodyScope s = body_enter(ai, tag, false); vs_work(k); body_exit(s); } (void)me; };
@@ -403,7 +431,7 @@ void h_run(Case& c) {
         else if (w[0] == "u") { size_t id = (size_t)atoi(w[1].c_str()); if (U.size() <= id) U.resize(id + 1); parse_ops(w, 2, U[id].ops); }
     }
     size_t maxu = 0;
-    auto scan = [&](const std::vector<Op>& ops) { for (auto& op : ops) { if (op.c == 'X' || op.c == 'E') { maxu = std::max(maxu, (size_t)op.b + 1); if (op.a < 0 || (size_t)op.a >= AR.size()) vs_inconclusive("BAD-CASE", "bad arena index"); } if (op.c == 'I') maxu = std::max(maxu, (size_t)op.a + 1); for (int u : op.us) maxu = std::max(maxu, (size_t)u + 1); } };
+    auto scan = [&](const std::vector<Op>& ops) { for (auto& op : ops) { if (op.c == 'X' || op.c == 'E') { maxu = std::max(maxu, (size_t)op.b + 1); if (op.a < 0 || (size_t)op.a >= AR.size()) vs_inconclusive("BAD-CASE", "bad arena index"); } if (op.c == 'I') maxu = std::max(maxu, (size_t)op.a + 1); if (op.c == 'K') maxu = std::max(maxu, (size_t)op.b + 1); for (int u : op.us) maxu = std::max(maxu, (size_t)u + 1); } };
     for (auto& r : TS_) for (auto& t : r) scan(t); for (size_t i = 0; i < U.size(); i++) scan(U[i].ops);
     if (U.size() < maxu) U.resize(maxu);
     round_done.assign((size_t)g_rounds, std::vector<char>((size_t)g_ext, 0));
@@ -444,7 +472,7 @@ void h_run(Case& c) {
     vs_stat_add("n_units", nsub); vs_stat_add("n_bodies", n_bodies); vs_stat_add("n_worker_bodies", n_worker_bodies); vs_stat_add("n_delegated", n_delegated); vs_stat_add("n_extra_worker", n_extra_worker);
     vs_stat_add("n_iso_wait_exec", n_iso_wait_exec); vs_stat_add("n_mid_limit", n_mid_limit); vs_stat_add("n_slot_reuse", n_slot_reuse); vs_stat_add("n_observer_entries", entries); vs_stat_add("n_excluded", n_excluded + kvl(c.lines[0], "clamped", 0));
     vs_stat_max("max_in_arena", max_in); vs_stat_max("max_workers", max_workers_seen);
-    if (n_held_waits) vs_stat_flag("isolated_wait_held_open_from_outside"); if (n_x_inplace_certain) vs_stat_flag("execute_certainly_in_place_under_limit_1"); if (n_x_wrongly_certain) vs_stat_flag("execute_delegated_although_arena_not_full"); if (n_hook_delegated) vs_stat_flag("execute_delegated_reported_by_hook"); if (n_worker_bodies) vs_stat_flag("worker_in_arena"); if (n_delegated) vs_stat_flag("delegated_execute"); if (n_extra_worker) vs_stat_flag("extra_worker_slot"); if (n_iso_wait_exec) vs_stat_flag("body_started_in_isolated_wait");
+    if (n_crit_bodies) vs_stat_flag("critical_task_bodies"); if (n_held_waits) vs_stat_flag("isolated_wait_held_open_from_outside"); if (n_x_inplace_certain) vs_stat_flag("execute_certainly_in_place_under_limit_1"); if (n_x_wrongly_certain) vs_stat_flag("execute_delegated_although_arena_not_full"); if (n_hook_delegated) vs_stat_flag("execute_delegated_reported_by_hook"); if (n_worker_bodies) vs_stat_flag("worker_in_arena"); if (n_delegated) vs_stat_flag("delegated_execute"); if (n_extra_worker) vs_stat_flag("extra_worker_slot"); if (n_iso_wait_exec) vs_stat_flag("body_started_in_isolated_wait");
     if (n_mid_limit) vs_stat_flag("limit_changed_while_running"); if (n_slot_reuse) vs_stat_flag("slot_reused_by_other_thread"); if (n_nested_arena) vs_stat_flag("nested_arena"); if (n_budget_tight) vs_stat_flag("worker_budget_reached");
     if (n_excluded) vs_stat_flag("excluded_external_in_extra_slot"); if (n_ext_nonreserved) vs_stat_flag("external_in_nonreserved_slot");
     vs_stat_add("nt", (max_in >= 2 && entries > 0) ? 1 : 0);
